@@ -565,6 +565,18 @@ def gen_logicconsts(repo):
     zs = re.findall(r'\.zip\((\d+)\.\.\)', ps) + re.findall(r'\.zip\((\d+)\.\.\)', fm)
     tr = [int(x) for x in re.findall(r'self\.suggestions\.truncate\((\d+)\)', fm)]
     fl = [int(x) for x in re.findall(r'Rank::last_ranked\([^;]*?,\s*(\d+)\s*,?\s*\)', fm, re.S)]
+    # the two sign → independent-vowel tables of process_key_value (automatic vowel forming; hasanta + sign)
+    chars_src = strip_comments(read(f"{repo}/src/fixed/chars.rs"))
+    cd = {k: ord(unescape_rust(v, item)) for k, v in re.findall(r'pub\(crate\) const (\w+): char = ' + CHR + ';', chars_src)}
+    t_auto = re.findall(r'(B_\w+_KAR) => self\.buffer\.push\((B_\w+)\),', fm)
+    t_has = re.findall(r'(B_\w+_KAR) => \{\s*self\.buffer\.pop\(\);\s*self\.buffer\.push\((B_\w+)\);\s*\}', fm)
+    if len(t_auto) < 10 or len(t_has) != 10: raise Fail(item, f"sign→vowel tables: {len(t_auto)} / {len(t_has)} arms")
+    # the first ten push-arms after "Automatic Vowel Forming" are the auto-vowel table (the pending-kar code has its own pushes of another shape)
+    av = fm.index("match character {", fm.index("autoVowelPos") if "autoVowelPos" in fm else fm.index("rmc.is_vowel() || MARKS.contains(rmc))\n                {\n                    match character"))
+    t_auto = re.findall(r'(B_\w+_KAR) => self\.buffer\.push\((B_\w+)\),', fm[av:av + 1200])
+    if len(t_auto) != 10: raise Fail(item, f"automatic-vowel table has {len(t_auto)} arms")
+    for k, v in t_auto + t_has:
+        if k not in cd or v not in cd: raise Fail(item, f"unknown constant {k} / {v}")
     m1 = re.search(r'// Zo-fola insertion\s*if value == ' + STR, read(f"{repo}/src/fixed/method.rs"))
     m2 = re.search(r'if value == ' + STR + r' && config\.get_fixed_old_reph\(\)', fm)
     if not m1 or not m2: raise Fail(item, "zo-fola / reph literals")
@@ -581,6 +593,9 @@ def gen_logicconsts(repo):
          f"def emojiRankStarts : List Nat := {nat_list([int(z) for z in zs])}",
          f"def fixedTruncations : List Nat := {nat_list(tr)}",
          f"def fixedLastRankNumbers : List Nat := {nat_list(fl)}",
+         "/-- sign → independent vowel, as (sign, vowel) code points: automatic vowel forming; hasanta + sign -/",
+         "def signVowelAuto : List (Nat × Nat) := [" + ", ".join(f"({cd[k]}, {cd[v]})" for k, v in t_auto) + "]",
+         "def signVowelHasanta : List (Nat × Nat) := [" + ", ".join(f"({cd[k]}, {cd[v]})" for k, v in t_has) + "]",
          f"def zoFolaLiteral : List Nat := {cps(unescape_rust(m1.group(1), item))}",
          f"def rephLiteral : List Nat := {cps(unescape_rust(m2.group(1), item))}",
          "end Riti.Gen"]
@@ -614,6 +629,14 @@ def main():
     for item, f in (("charclasses", gen_charclasses), ("rankcmp", gen_rankcmp), ("okkhor", gen_okkhor), ("panicsites", gen_panicsites), ("logicconsts", gen_logicconsts)):
         r = run(item, lambda: f(a.repo))
         if r: outs.append(r)
+    # the Bijoy encoder tables of the pinned poriborton crate (tools/gen_bijoy.py)
+    try:
+        sys.path.insert(0, os.path.dirname(os.path.abspath(__file__)))
+        import gen_bijoy
+        r = run("bijoy", lambda: gen_bijoy.gen_bijoy(a.repo))
+        if r: outs.append(r[:2])
+    except Exception as e:
+        failed.append(("bijoy", f"{type(e).__name__}: {e}"))
     changed = []
     for name, text in outs:
         p = os.path.join(a.out, name)
